@@ -18,20 +18,33 @@ CFG = dict(
          "real comparators; fn=sorted: slice::sort_by with both comparators against a stable insertion sort of the "
          "model; thorough tier adds seeded random bit patterns; every case is a distinct non-trivial configuration",
     theorem_hint="Props/C15.v: C15_cast_null_preserved, C15_cast_nonnull_preserved, C15_cast_value_is_as, "
-                 "C15_cast_composes_*, C15_sort_cmp_total_preorder, C15_predicates_coherent",
-    level_text="Proof: 21 theorems (Props/C15.v, axiom-free) about the Gallina model of isnone.rs / cast.rs / number.rs "
+                 "C15_cast_composes_*, C15_sort_cmp_total_preorder, C15_predicates_coherent; audit: C15_cast_to_time_null_iff_sentinel, "
+                 "C15_cast_null_to_nonnullable_panics, C15_cast_null_total_or_panics_by_design, C15_pair_coverage (Proofs/Audit15.v)",
+    level_text="Proof: 36 theorems (Props/C15.v, axiom-free) about the Gallina model of isnone.rs / cast.rs / number.rs "
                "for ALL 26 type codes / 676 ordered pairs (case analysis) and ALL values (universally quantified), over "
-               "an arbitrary float type satisfying ExtLaws: the null predicates agree; none() is null; wrap/unwrap "
-               "identity; vabs preserves nullness; cast maps null to null and non-null to non-null whenever the target "
-               "can represent nulls (outside known-finding class 1 and the i64::MIN sentinel / overflow premises); "
-               "value = Rust `as` on non-nulls; composition through Option on either side; sort_cmp and sort_cmp_rev "
-               "are total preorders, order non-nulls by value (ascending resp. descending), nulls last in both. The "
-               "model is tied to the code by an exhaustive differential run over every implemented pair x value list.",
+               "an arbitrary float type satisfying ExtLaws. (1)-(9): the null predicates agree; none() is null; "
+               "wrap/unwrap identity; vabs preserves nullness; cast maps null to null and non-null to non-null whenever "
+               "the target can represent nulls (outside known-finding class 1 and the i64::MIN sentinel / overflow "
+               "premises); value = Rust `as` on non-nulls; composition through Option on either side; sort_cmp and "
+               "sort_cmp_rev are total preorders, order non-nulls by value, nulls last in both. Audit (A1)-(A12), "
+               "Proofs/Audit15.v: the excluded inputs get their own theorems - a numeric value cast to a time type is null "
+               "EXACTLY at the i64::MIN sentinel; TimeDelta -> i64 / Option<i64>: quotient toward zero in range, the "
+               "target's null on overflowing microseconds, panic with months; a null cast to a target that cannot "
+               "represent a null panics (None, 'None', NaT -> integer / bool; DateTime / Time -> i64 return the sentinel); "
+               "the finite list of null casts into a nullable target that panic by design, all others total; values: "
+               "vabs = |x| / identity on unsigned / panics only on a signed minimum; IsNone::map (a plain source applies "
+               "f also to a null); bool <-> numeric; integer `as` exact iff representable, else congruent mod 2^bits and "
+               "in range; the comparators never panic (no premise at all); the unit-changing casts DateTime<A> -> "
+               "DateTime<B> keep NaT and never create it (all 16 unit pairs); IsNone for Vec<T>; the coverage table: "
+               "676 = 191 not implemented + 154 non-nullable target + 5 class 1 + 2 parsers (compared only) + 324 under "
+               "(5)/(6). The model is tied to the code by an exhaustive differential run over every implemented pair x "
+               "value list.",
     level_note="Trusted: Coq kernel; the hand-written model of the macro-generated impls; ExtLaws (Rust's float `as`, "
                "abs, partial_cmp never produce / always propagate NaN as stated; float Display never prints 'None') — "
                "checked against the real operations by the correspondence run through the PrimFloat instance; the "
-               "harness and comparator. String -> DateTime/TimeDelta (parsers, C18) and DateTime unit changes (C16) are "
-               "probed for existence only; Display of floats is compared for integers < 2^53 and multiples of 1/8.",
+               "harness and comparator. String -> DateTime/TimeDelta (parsers, C18) are probed for existence only, DateTime "
+               "unit changes are compared through Model/Time.into_unit (nullness: theorem (A10)); String -> u16/u32/i8/i16/"
+               "char (outside the property's type list) are not modelled; Display of floats is compared for integers < 2^53 and multiples of 1/8.",
     trusted=["ExtLaws (Proofs/Cast.v): NaN-propagation of Rust's float `as` / abs, partial_cmp a total preorder on "
              "non-NaN floats, float Display never 'None' and 'None' not parseable — hypotheses of the theorems, "
              "exercised on every run through the executable PrimFloat instance (Run/RunC15.v)",
